@@ -1956,4 +1956,49 @@ def openBounds : List (Option Int) := [some 2, some 4, Option.none]
        | .error _ => false)
   | _ => false)
 
+/-! ### the round trip for ONE series and ONE bound (reviews t4 2.2 / v4 2.4: so far only sampled) -/
+
+/-- **unslice_restitch_single** - `df_slice([s], ub = [u], n = 1)` then `df_unslice` then `df_slice` again, ANY values (NaN, gaps,
+    unsorted, empty): one series comes back, filed under `u`; it is the rows of `s` up to `u` holding a value (by an independent
+    description: a `filter` of `s`, not the model's slices / columns), and stitching it again gives the frame up to its all-NaN rows -/
+theorem unslice_restitch_single (s : TS) (u : Int) :
+    ∃ F U, stitch [s] Option.none (some [u]) (some ['(', ']']) 1 = .ok (some F) ∧ unslice F [u] = .ok U ∧
+      U.map (·.1) = [u] ∧ U.map (·.2) = [nona (s.filter fun p => decide (p.1 ≤ u))] ∧
+      stitch (U.map (·.2)) Option.none (some [u]) (some ['(', ']']) 1 = .ok (some F.dropNaRows) := by
+  let w : Int → Bool := fun t => lbOk false .none t && ubOk true (.date u) t
+  have hw : ∀ t, w t = decide (t ≤ u) := fun t => by simp [w, lbOk, ubOk]
+  have hst : ∀ x : TS, stitch [x] Option.none (some [u]) (some ['(', ']']) 1 =
+      .ok (some ⟨1, (ofTS x).filter fun r => w r.1⟩) := by
+    intro x
+    rw [stitch_single_eq, sliceOne_eq _ _ _ _ false true rfl]; rfl
+  have hkeys := unslice_keys ⟨1, (ofTS s).filter fun r => w r.1⟩ [u] (by simp) (Nat.one_pos)
+  have hrs : rsOf ⟨1, (ofTS s).filter fun r => w r.1⟩ [u] = [(u, s.filter fun p => w p.1)] := by
+    rw [rsOf_series _ _ rfl]
+    simp only [List.length_cons, List.length_nil, List.range_succ, List.range_zero, List.nil_append, List.map_cons,
+      List.map_nil, List.getD_cons_zero, loBound, if_true, List.filter_filter, inWindow]
+    have : (fun r : Int × List (Option Int) => (lbOk false Bound.none r.1 && ubOk true (Bound.date u) r.1) && w r.1) =
+        fun r => w r.1 := by funext r; simp [w]
+    rw [this, column_ofTS_filter]
+  refine ⟨_, [(u, nona (s.filter fun p => w p.1))], hst s, ?_, ?_, ?_, ?_⟩
+  · rw [unslice_eq _ _ rfl, hkeys]
+    simp [hrs]
+  · simp
+  · simp [hw]
+  · simp only [List.map_cons, List.map_nil]
+    rw [hst, ofTS_nona]
+    simp only [Frame.dropNaRows, List.filter_filter]
+    congr 3
+    have e1 : ∀ X : Rows (List (Option Int)), X.filter (fun a => w a.1 && live a) = (X.filter (fun a => w a.1)).filter live := by
+      intro X; rw [List.filter_filter]; apply List.filter_congr; intro r _; exact Bool.and_comm _ _
+    rw [e1, ofTS_filter_filter s w, List.filter_filter]
+
+example : ∃ F U, stitch [[(1, some 5), (2, Option.none), (3, some 7), (4, some 9)]] Option.none (some [3]) (some ['(', ']']) 1 = .ok (some F) ∧
+    unslice F [3] = .ok U ∧ U = [(3, [(1, some 5), (3, some 7)])] := by
+  obtain ⟨F, U, h1, h2, h3, h4, _⟩ := unslice_restitch_single [(1, some 5), (2, Option.none), (3, some 7), (4, some 9)] 3
+  refine ⟨F, U, h1, h2, ?_⟩
+  match U, h3, h4 with
+  | [(k, v)], h3, h4 =>
+    simp only [List.map_cons, List.map_nil, List.cons.injEq, and_true] at h3 h4
+    subst h3; subst h4; decide
+
 end Pyg.Props.C13
